@@ -4,7 +4,7 @@ from __future__ import annotations
 import ast
 
 from .model import AnalysisError, ClassInfo, Program
-from .symex import (Alt, Const, CtxV, EnumV, Evaluator, Hole, Inh, InhOr, JoinP, Lit, Obj, One, Opaque, Phi, Rep,
+from .symex import (CondI, Alt, Const, CtxV, EnumV, Evaluator, Hole, Inh, InhOr, JoinP, Lit, Obj, One, Opaque, Phi, Rep,
                     RepI, SlotP, Str, Sym, show, walk_parts, negate)
 
 BUILDER_CLASSES = ("QueryBuilder", "MySQLQueryBuilder", "PostgreSQLQueryBuilder", "SQLLiteQueryBuilder",
@@ -99,9 +99,17 @@ def recv_path(v) -> str:
         if k == "getattr-default":
             return f"{recv_path(a[0])}.{a[1]}"
         if k == "loopval":
-            return f"loop:{a[0]}"
+            inner = [x for x in (a[1:] or ())]
+            import re as _re
+            m = _re.search(r"self\.(\w+)", show(inner[0])) if inner else None
+            return f"all({m.group(1)})" if m else f"loop:{a[0]}"
     if isinstance(v, Phi):
-        return f"({recv_path(v.a)}|{recv_path(v.b)})"
+        a, b = recv_path(v.a), recv_path(v.b)
+        if a.startswith("new "):
+            return b
+        if b.startswith("new "):
+            return a
+        return f"({a}|{b})"
     return show(v)
 
 
@@ -141,6 +149,11 @@ def count_marker(v, marker: str):
     if isinstance(v, RepI):
         hi = max([count_marker(i, marker)[1] for i in v.body] or [0])
         return 0, (9 if hi else 0)
+    if isinstance(v, CondI):
+        hi = 0
+        for i in v.items:
+            hi = min(9, hi + count_marker(i, marker)[1])
+        return 0, hi
     if isinstance(v, Opaque):
         lo = hi = 0
         for i in v.inner:
@@ -173,3 +186,42 @@ def cond_mentions(conds, pred) -> bool:
             return any(rec(a, d + 1) for a in x)
         return False
     return any(rec(c) for c in conds)
+
+
+# ----------------------------------------------------------------------------- all render sites
+def render_sites(program: Program):
+    """Every nested render call site reachable from the effective get_sql of every renderable class:
+    list of dicts {cls, defcls, func, recv, ctx(CtxV|None|Phi), conds, part, in_rep}; de-duplicated by
+    (source function, line, receiver path, ctx)."""
+    cache = program.__dict__.setdefault("_render_sites", None)
+    if cache is not None:
+        return cache
+    out = []
+    seen = set()
+    skeletons = {}
+    for c in renderable_classes(program):
+        try:
+            sk, ev = render(program, c)
+        except AnalysisError:
+            raise
+        skeletons[c] = (sk, ev)
+        for part, conds, in_rep in walk_parts(sk):
+            if not isinstance(part, SlotP):
+                continue
+            rp = recv_path(part.recv)
+            key = (part.src[0] if part.src else "?", part.src[1] if part.src else 0, rp,
+                   repr(part.ctx) if part.ctx is not None else None, c.qualname if not part.src else "")
+            if key in seen:
+                continue
+            seen.add(key)
+            out.append({"cls": c, "func": part.src[0] if part.src else "?", "line": part.src[1] if part.src else 0,
+                        "file": part.src[2] if part.src else "", "recv": rp, "ctx": part.ctx, "conds": conds,
+                        "part": part, "in_rep": in_rep, "method": part.method})
+    program.__dict__["_render_sites"] = out
+    program.__dict__["_skeletons"] = skeletons
+    return out
+
+
+def skeletons(program: Program):
+    render_sites(program)
+    return program.__dict__["_skeletons"]
